@@ -105,6 +105,15 @@ def sel_view(blotter, strategy, lookup):
     return blotter._strategy_selection_orders[(strategy, lookup[1], lookup[2])]
 
 
+def has_view(blotter, strategy, lookup):
+    return (strategy, lookup[1], lookup[2]) in blotter._strategy_selection_orders
+
+
+def vlen(blotter, strategy, lookup):
+    """number of orders the strategy has on the selection (0 when the defaultdict has no entry yet)"""
+    return len(sel_view(blotter, strategy, lookup)) if has_view(blotter, strategy, lookup) else 0
+
+
 def order_at(view, new_order, j):
     return view[j] if j < len(view) else new_order
 
@@ -113,8 +122,13 @@ def n_orders(view, new_order):
     return len(view) + (1 if new_order is not None else 0)
 
 
-def has_view(blotter, strategy, lookup):
-    return (strategy, lookup[1], lookup[2]) in blotter._strategy_selection_orders
+def oat(blotter, strategy, lookup, new_order, j):
+    """j-th order of the book 'view + [new_order]'"""
+    return sel_view(blotter, strategy, lookup)[j] if j < vlen(blotter, strategy, lookup) else new_order
+
+
+def nord(blotter, strategy, lookup, new_order):
+    return vlen(blotter, strategy, lookup) + (1 if new_order is not None else 0)
 
 
 def order_ok(o):
@@ -129,54 +143,71 @@ def _(self, strategy: Ref("BaseStrategy"), lookup: Tup(ATOM, INT, REAL), exclusi
     ensures("view_is_kept_or_created_empty", has_view(self, strategy, lookup)
             and (sel_view(self, strategy, lookup) is old(sel_view(self, strategy, lookup)) if old(has_view(self, strategy, lookup)) else len(sel_view(self, strategy, lookup)) == 0))
     local(mb=ListOf(Tup(REAL, REAL)), ml=ListOf(Tup(REAL, REAL)), ub=ListOf(Tup(REAL, REAL)), ul=ListOf(Tup(REAL, REAL)))
-    invariant(0, "matched_back", pair_sum_win(mb) == sum_(lambda j: mb_win(order_at(sel_view(self, strategy, lookup), new_order, j), exclusion), 0, _i0)
-              and -pair_sum_size(mb) == sum_(lambda j: mb_lose(order_at(sel_view(self, strategy, lookup), new_order, j), exclusion), 0, _i0))
-    invariant(0, "matched_lay", sum_(lambda k: (ml[k][0] - 1) * -ml[k][1], 0, len(ml)) == sum_(lambda j: ml_win(order_at(sel_view(self, strategy, lookup), new_order, j), exclusion), 0, _i0)
-              and pair_sum_size(ml) == sum_(lambda j: ml_lose(order_at(sel_view(self, strategy, lookup), new_order, j), exclusion), 0, _i0))
-    invariant(0, "open_back", -pair_sum_size(ub) == sum_(lambda j: ub_lose(order_at(sel_view(self, strategy, lookup), new_order, j), exclusion), 0, _i0))
-    invariant(0, "open_lay", sum_(lambda k: (ul[k][0] - 1) * -ul[k][1], 0, len(ul)) == sum_(lambda j: ul_win(order_at(sel_view(self, strategy, lookup), new_order, j), exclusion), 0, _i0))
-    invariant(0, "sp", moc_win_liability == sum_(lambda j: sp_win(order_at(sel_view(self, strategy, lookup), new_order, j), exclusion), 0, _i0)
-              and moc_lose_liability == sum_(lambda j: sp_lose(order_at(sel_view(self, strategy, lookup), new_order, j), exclusion), 0, _i0))
-    ensures("matched_win", result["matched_profit_if_win"] == round(
-        sum_(lambda j: mb_win(order_at(sel_view(self, strategy, lookup), new_order, j), exclusion), 0, n_orders(sel_view(self, strategy, lookup), new_order))
-        + sum_(lambda j: ml_win(order_at(sel_view(self, strategy, lookup), new_order, j), exclusion), 0, n_orders(sel_view(self, strategy, lookup), new_order)), 2))
-    ensures("matched_lose", result["matched_profit_if_lose"] == round(
-        sum_(lambda j: ml_lose(order_at(sel_view(self, strategy, lookup), new_order, j), exclusion), 0, n_orders(sel_view(self, strategy, lookup), new_order))
-        + sum_(lambda j: mb_lose(order_at(sel_view(self, strategy, lookup), new_order, j), exclusion), 0, n_orders(sel_view(self, strategy, lookup), new_order)), 2))
-    ensures("unmatched_win", result["worst_potential_unmatched_profit_if_win"] == round(
-        sum_(lambda j: ul_win(order_at(sel_view(self, strategy, lookup), new_order, j), exclusion), 0, n_orders(sel_view(self, strategy, lookup), new_order)), 2))
-    ensures("unmatched_lose", result["worst_potential_unmatched_profit_if_lose"] == round(
-        sum_(lambda j: ub_lose(order_at(sel_view(self, strategy, lookup), new_order, j), exclusion), 0, n_orders(sel_view(self, strategy, lookup), new_order)), 2))
-    ensures("worst_on_win", result["worst_possible_profit_on_win"] == result["matched_profit_if_win"] + result["worst_potential_unmatched_profit_if_win"]
-            + sum_(lambda j: sp_win(order_at(sel_view(self, strategy, lookup), new_order, j), exclusion), 0, n_orders(sel_view(self, strategy, lookup), new_order)))
-    ensures("worst_on_lose", result["worst_possible_profit_on_lose"] == result["matched_profit_if_lose"] + result["worst_potential_unmatched_profit_if_lose"]
-            + sum_(lambda j: sp_lose(order_at(sel_view(self, strategy, lookup), new_order, j), exclusion), 0, n_orders(sel_view(self, strategy, lookup), new_order)))
+    # right-hand sides over the PRE state (no order and no view changes while the loop runs); _i0 = number of orders processed
+    invariant(0, "iterating_the_book", _n0 == old(nord(self, strategy, lookup, new_order)))
+    invariant(0, "matched_back", pair_sum_win(mb) == old(sum_(lambda j: mb_win(oat(self, strategy, lookup, new_order, j), exclusion), 0, _i0))
+              and -pair_sum_size(mb) == old(sum_(lambda j: mb_lose(oat(self, strategy, lookup, new_order, j), exclusion), 0, _i0)))
+    invariant(0, "matched_lay", sum_(lambda k: (ml[k][0] - 1) * -ml[k][1], 0, len(ml)) == old(sum_(lambda j: ml_win(oat(self, strategy, lookup, new_order, j), exclusion), 0, _i0))
+              and pair_sum_size(ml) == old(sum_(lambda j: ml_lose(oat(self, strategy, lookup, new_order, j), exclusion), 0, _i0)))
+    invariant(0, "open_back", -pair_sum_size(ub) == old(sum_(lambda j: ub_lose(oat(self, strategy, lookup, new_order, j), exclusion), 0, _i0)))
+    invariant(0, "open_lay", sum_(lambda k: (ul[k][0] - 1) * -ul[k][1], 0, len(ul)) == old(sum_(lambda j: ul_win(oat(self, strategy, lookup, new_order, j), exclusion), 0, _i0)))
+    invariant(0, "sp", moc_win_liability == old(sum_(lambda j: sp_win(oat(self, strategy, lookup, new_order, j), exclusion), 0, _i0))
+              and moc_lose_liability == old(sum_(lambda j: sp_lose(oat(self, strategy, lookup, new_order, j), exclusion), 0, _i0)))
+    # the figures are stated on the PRE state (get_exposures changes no order and no view)
+    ensures("matched_win", result["matched_profit_if_win"] == old(round(sum_mb_win(self, strategy, lookup, exclusion, new_order) + sum_ml_win(self, strategy, lookup, exclusion, new_order), 2)))
+    ensures("matched_lose", result["matched_profit_if_lose"] == old(round(sum_ml_lose(self, strategy, lookup, exclusion, new_order) + sum_mb_lose(self, strategy, lookup, exclusion, new_order), 2)))
+    ensures("unmatched_win", result["worst_potential_unmatched_profit_if_win"] == old(round(sum_ul_win(self, strategy, lookup, exclusion, new_order), 2)))
+    ensures("unmatched_lose", result["worst_potential_unmatched_profit_if_lose"] == old(round(sum_ub_lose(self, strategy, lookup, exclusion, new_order), 2)))
+    ensures("worst_on_win", result["worst_possible_profit_on_win"] == old(wp_win(self, strategy, lookup, exclusion, new_order)))
+    ensures("worst_on_lose", result["worst_possible_profit_on_lose"] == old(wp_lose(self, strategy, lookup, exclusion, new_order)))
 
 
-def n_all(view):
-    return len(view)
+def sum_mb_win(b, s, l, x, n):
+    return sum_(lambda j: mb_win(oat(b, s, l, n, j), x), 0, nord(b, s, l, n))
 
 
-def wp_win(blotter, strategy, lookup, exclusion, new_order):
+def sum_ml_win(b, s, l, x, n):
+    return sum_(lambda j: ml_win(oat(b, s, l, n, j), x), 0, nord(b, s, l, n))
+
+
+def sum_mb_lose(b, s, l, x, n):
+    return sum_(lambda j: mb_lose(oat(b, s, l, n, j), x), 0, nord(b, s, l, n))
+
+
+def sum_ml_lose(b, s, l, x, n):
+    return sum_(lambda j: ml_lose(oat(b, s, l, n, j), x), 0, nord(b, s, l, n))
+
+
+def sum_ul_win(b, s, l, x, n):
+    return sum_(lambda j: ul_win(oat(b, s, l, n, j), x), 0, nord(b, s, l, n))
+
+
+def sum_ub_lose(b, s, l, x, n):
+    return sum_(lambda j: ub_lose(oat(b, s, l, n, j), x), 0, nord(b, s, l, n))
+
+
+def sum_sp_win(b, s, l, x, n):
+    return sum_(lambda j: sp_win(oat(b, s, l, n, j), x), 0, nord(b, s, l, n))
+
+
+def sum_sp_lose(b, s, l, x, n):
+    return sum_(lambda j: sp_lose(oat(b, s, l, n, j), x), 0, nord(b, s, l, n))
+
+
+def wp_win(b, s, l, x, n):
     """worst-case profit if the selection wins, as get_exposures reports it (two separately rounded sums + SP liabilities)"""
-    return (round(sum_(lambda j: mb_win(order_at(sel_view(blotter, strategy, lookup), new_order, j), exclusion), 0, n_orders(sel_view(blotter, strategy, lookup), new_order))
-                  + sum_(lambda j: ml_win(order_at(sel_view(blotter, strategy, lookup), new_order, j), exclusion), 0, n_orders(sel_view(blotter, strategy, lookup), new_order)), 2)
-            + round(sum_(lambda j: ul_win(order_at(sel_view(blotter, strategy, lookup), new_order, j), exclusion), 0, n_orders(sel_view(blotter, strategy, lookup), new_order)), 2)
-            + sum_(lambda j: sp_win(order_at(sel_view(blotter, strategy, lookup), new_order, j), exclusion), 0, n_orders(sel_view(blotter, strategy, lookup), new_order)))
+    return round(sum_mb_win(b, s, l, x, n) + sum_ml_win(b, s, l, x, n), 2) + round(sum_ul_win(b, s, l, x, n), 2) + sum_sp_win(b, s, l, x, n)
 
 
-def wp_lose(blotter, strategy, lookup, exclusion, new_order):
-    return (round(sum_(lambda j: ml_lose(order_at(sel_view(blotter, strategy, lookup), new_order, j), exclusion), 0, n_orders(sel_view(blotter, strategy, lookup), new_order))
-                  + sum_(lambda j: mb_lose(order_at(sel_view(blotter, strategy, lookup), new_order, j), exclusion), 0, n_orders(sel_view(blotter, strategy, lookup), new_order)), 2)
-            + round(sum_(lambda j: ub_lose(order_at(sel_view(blotter, strategy, lookup), new_order, j), exclusion), 0, n_orders(sel_view(blotter, strategy, lookup), new_order)), 2)
-            + sum_(lambda j: sp_lose(order_at(sel_view(blotter, strategy, lookup), new_order, j), exclusion), 0, n_orders(sel_view(blotter, strategy, lookup), new_order)))
+def wp_lose(b, s, l, x, n):
+    return round(sum_ml_lose(b, s, l, x, n) + sum_mb_lose(b, s, l, x, n), 2) + round(sum_ub_lose(b, s, l, x, n), 2) + sum_sp_lose(b, s, l, x, n)
 
 
 @contract("flumine/markets/blotter.py::Blotter.selection_exposure", tags=["C16"])
 def _(self, strategy: Ref("BaseStrategy"), lookup: Tup(ATOM, INT, REAL)) -> REAL:
     requires("known_order_types", implies(has_view(self, strategy, lookup), forall(lambda j: order_ok(sel_view(self, strategy, lookup)[j]), 0, len(sel_view(self, strategy, lookup)))))
     modifies_map(self._strategy_selection_orders)
-    ensures("worst_case_loss_or_zero",
-            result == (-wp_win(self, strategy, lookup, None, None) if wp_win(self, strategy, lookup, None, None) < wp_lose(self, strategy, lookup, None, None)
-                       else -wp_lose(self, strategy, lookup, None, None))
-            if (wp_win(self, strategy, lookup, None, None) < 0 or wp_lose(self, strategy, lookup, None, None) < 0) else result == 0)
+    ensures("worst_case_loss_or_zero", old(
+        (-wp_win(self, strategy, lookup, None, None) if wp_win(self, strategy, lookup, None, None) < wp_lose(self, strategy, lookup, None, None)
+         else -wp_lose(self, strategy, lookup, None, None))
+        if (wp_win(self, strategy, lookup, None, None) < 0 or wp_lose(self, strategy, lookup, None, None) < 0) else 0) == result)
